@@ -518,6 +518,27 @@ def assist_import_proposals(run):
         seen['marked'] = ('a.b', None)
         r = f(Proj(), Src(), (1, 16), 'f.py')
         prove('module-name-proposals-are-the-package-listing', r[1] is PL, path=path)
+        # `from <text>|`: the package whose children are listed is the dotted text left of the last dot - as a relative level when that is
+        # dots only - and the prefix is what follows it (oracle: written from the grammar of relative module names, not from the code)
+        asked = []
+        f2 = loader.load(MOD, 'assist', stubs=dict(
+            Source=lambda source, filename, position: source, EvalCtx=lambda project: object(),
+            list_packages=lambda project, root, filename: asked.append(root) or ['<listing of %s>' % root], print_dump=lambda tree: None))
+        for text in ('', 'o', 'os.pa', 'os.', 'os.path.jo', '.', '..', '.x', '..x', '.a.', '.a.b', '..a.b.', '..a.b.c', '...', '...pkg.'):
+            level = len(text) - len(text.lstrip('.'))
+            rest = text[level:]
+            want_pkg, want_prefix = ('.' * level + rest.rsplit('.', 1)[0], rest.rsplit('.', 1)[1]) if '.' in rest else ('.' * level, rest)
+
+            class Src2(object):
+                tree = None
+                lines = ['    from ' + text]
+            del asked[:]
+            try:
+                r = f2(Proj(), Src2(), (1, 9 + len(text)), 'f.py')
+            except Exception as e:
+                r = ('<raised %s>' % type(e).__name__, None)
+            prove('from-branch-lists-the-package-left-of-the-last-dot[from %s]' % (text or '<nothing>'), asked == [want_pkg] and r[0] == want_prefix,
+                  clause='children of %r, prefix %r [asked %r, prefix %r]' % (want_pkg, want_prefix, asked, r[0]), path=path)
         # assistant.list_packages itself
         lp = loader.load(MOD, 'list_packages', stubs=dict(sorted=sorted_stub))
         the_set = {'x', 'y'}
